@@ -1,10 +1,458 @@
-(* Proofs/Utf8_proofs.v — the lexer's UTF-8 decoder against the Table 3-7
-   specification. *)
+(* Proofs/Utf8_proofs.v — the lexer's UTF-8 decoder (Model/Utf8.v, bit
+   operations as in the source) against the Table 3-7 automaton [lossy], and
+   the automaton against the textbook encoder.
+
+   Method: facts about single bytes are established by enumeration of the 256
+   byte values inside the kernel (vm_compute); the multi-byte structure is
+   handled symbolically through an intermediate arithmetic decoder
+   [decode_arith]. *)
 From RJ Require Import Base.Outcome Model.Utf8.
 From Coq Require Import Lia.
 Local Open Scope N_scope.
 
-(* The decoder as written accepts the overlong lead bytes C0 / C1. *)
-Lemma decode_is_lossy_refuted :
-  exists bs, @decode_all unit bs <> Ok (lossy bs).
-Proof. exists [0xC1; 0x81]. vm_compute. discriminate. Qed.
+Definition bytes_ok (bs : list N) : Prop := Forall (fun b => b < 256) bs.
+
+Lemma bytes_ok_skipn k bs : bytes_ok bs -> bytes_ok (skipn k bs).
+Proof.
+  revert bs. induction k as [|k IH]; intros bs H; [exact H|].
+  destruct bs as [|b r]; [exact H|]. apply IH. inversion H; assumption.
+Qed.
+
+(* ---- enumeration of bytes ---- *)
+Definition all_bytes : list N := map N.of_nat (seq 0 256).
+
+Lemma in_all_bytes b : b < 256 -> In b all_bytes.
+Proof.
+  intros H. unfold all_bytes. apply in_map_iff. exists (N.to_nat b).
+  split; [lia|]. apply in_seq. lia.
+Qed.
+
+Lemma byte_forall (P : N -> bool) :
+  forallb P all_bytes = true -> forall b, b < 256 -> P b = true.
+Proof. intros H b Hb. rewrite forallb_forall in H. apply H, in_all_bytes, Hb. Qed.
+
+Lemma byte_forall2 (P : N -> N -> bool) :
+  forallb (fun a => forallb (P a) all_bytes) all_bytes = true ->
+  forall a b, a < 256 -> b < 256 -> P a b = true.
+Proof.
+  intros H a b Ha Hb. rewrite forallb_forall in H.
+  exact (byte_forall (P a) (H a (in_all_bytes a Ha)) b Hb).
+Qed.
+
+Lemma in_range_iff lo hi b : in_range lo hi b = true <-> lo <= b <= hi.
+Proof. unfold in_range. rewrite andb_true_iff, !N.leb_le. tauto. Qed.
+
+Lemma in_range_false_iff lo hi b : in_range lo hi b = false <-> (b < lo \/ hi < b).
+Proof.
+  unfold in_range. rewrite andb_false_iff, !N.leb_gt. tauto.
+Qed.
+
+(* ---- single-byte facts (by enumeration) ---- *)
+Lemma is_cont_range b : b < 256 -> is_cont b = in_range 0x80 0xBF b.
+Proof.
+  intros H. apply Bool.eqb_prop.
+  exact (byte_forall (fun b => Bool.eqb (is_cont b) (in_range 0x80 0xBF b)) eq_refl b H).
+Qed.
+
+Lemma land63 b : b < 256 -> in_range 0x80 0xBF b = true -> N.land b 63 = b - 0x80.
+Proof.
+  intros H R. apply N.eqb_eq.
+  pose proof (byte_forall (fun b => implb (in_range 0x80 0xBF b) (N.land b 63 =? b - 0x80)) eq_refl b H) as P.
+  cbv beta in P. rewrite R in P. exact P.
+Qed.
+
+Lemma land31 b : b < 256 -> in_range 0xC0 0xDF b = true -> N.land b 31 = b - 0xC0.
+Proof.
+  intros H R. apply N.eqb_eq.
+  pose proof (byte_forall (fun b => implb (in_range 0xC0 0xDF b) (N.land b 31 =? b - 0xC0)) eq_refl b H) as P.
+  cbv beta in P. rewrite R in P. exact P.
+Qed.
+
+Lemma land15 b : b < 256 -> in_range 0xE0 0xEF b = true -> N.land b 15 = b - 0xE0.
+Proof.
+  intros H R. apply N.eqb_eq.
+  pose proof (byte_forall (fun b => implb (in_range 0xE0 0xEF b) (N.land b 15 =? b - 0xE0)) eq_refl b H) as P.
+  cbv beta in P. rewrite R in P. exact P.
+Qed.
+
+Lemma land7 b : b < 256 -> in_range 0xF0 0xF7 b = true -> N.land b 7 = b - 0xF0.
+Proof.
+  intros H R. apply N.eqb_eq.
+  pose proof (byte_forall (fun b => implb (in_range 0xF0 0xF7 b) (N.land b 7 =? b - 0xF0)) eq_refl b H) as P.
+  cbv beta in P. rewrite R in P. exact P.
+Qed.
+
+(* the second-byte range as a function of the lead byte *)
+Definition lo3 (b0 : N) : N := if b0 =? 0xE0 then 0xA0 else 0x80.
+Definition hi3 (b0 : N) : N := if b0 =? 0xED then 0x9F else 0xBF.
+Definition lo4 (b0 : N) : N := if b0 =? 0xF0 then 0x90 else 0x80.
+Definition hi4 (b0 : N) : N := if b0 =? 0xF4 then 0x8F else 0xBF.
+
+Lemma second3_range b0 b1 : b0 < 256 -> b1 < 256 -> in_range 0xE0 0xEF b0 = true ->
+  second3_ok b0 b1 = in_range (lo3 b0) (hi3 b0) b1.
+Proof.
+  intros H0 H1 R. apply Bool.eqb_prop.
+  pose proof (byte_forall2 (fun b0 b1 => implb (in_range 0xE0 0xEF b0)
+                (Bool.eqb (second3_ok b0 b1) (in_range (lo3 b0) (hi3 b0) b1))) eq_refl b0 b1 H0 H1) as P.
+  cbv beta in P. rewrite R in P. exact P.
+Qed.
+
+Lemma second4_range b0 b1 : b0 < 256 -> b1 < 256 -> in_range 0xF0 0xF7 b0 = true ->
+  second4_ok b0 b1 = in_range 0xF0 0xF4 b0 && in_range (lo4 b0) (hi4 b0) b1.
+Proof.
+  intros H0 H1 R. apply Bool.eqb_prop.
+  pose proof (byte_forall2 (fun b0 b1 => implb (in_range 0xF0 0xF7 b0)
+                (Bool.eqb (second4_ok b0 b1) (in_range 0xF0 0xF4 b0 && in_range (lo4 b0) (hi4 b0) b1)))
+                eq_refl b0 b1 H0 H1) as P.
+  cbv beta in P. rewrite R in P. exact P.
+Qed.
+
+(* ---- the row of Table 3-7 as a function of the lead byte ---- *)
+Definition row_of (b0 : N) : option (N * list (N * N)) :=
+  if b0 <=? 0x7F then Some (0, [])
+  else if in_range lead2_lo lead2_hi b0 then Some (0xC0, [cont_range])
+  else if in_range 0xE0 0xEF b0 then Some (0xE0, [(lo3 b0, hi3 b0); cont_range])
+  else if in_range 0xF0 0xF7 b0 then
+    if in_range 0xF0 0xF4 b0 then Some (0xF0, [(lo4 b0, hi4 b0); cont_range; cont_range]) else None
+  else None.
+
+Definition pair_eqb (a b : N * N) : bool := (fst a =? fst b) && (snd a =? snd b).
+Fixpoint trail_eqb (a b : list (N * N)) : bool :=
+  match a, b with
+  | [], [] => true
+  | x :: a', y :: b' => pair_eqb x y && trail_eqb a' b'
+  | _, _ => false
+  end.
+Lemma trail_eqb_eq a b : trail_eqb a b = true -> a = b.
+Proof.
+  revert b. induction a as [|[x1 x2] a IH]; destruct b as [|[y1 y2] b]; simpl; intros H; try discriminate; auto.
+  apply andb_true_iff in H as [H1 H2]. unfold pair_eqb in H1. simpl in H1.
+  apply andb_true_iff in H1 as [Ha Hb]. apply N.eqb_eq in Ha, Hb. subst. f_equal. apply IH, H2.
+Qed.
+
+Definition row_eqb (a : option row) (b : option (N * list (N * N))) : bool :=
+  match a, b with
+  | None, None => true
+  | Some r, Some (base, tr) => (r_base r =? base) && trail_eqb (r_trail r) tr
+  | _, _ => false
+  end.
+
+Lemma find_row_of b0 : b0 < 256 -> row_eqb (find_row b0) (row_of b0) = true.
+Proof. exact (byte_forall (fun b0 => row_eqb (find_row b0) (row_of b0)) eq_refl b0). Qed.
+
+(* ---- bit operations as arithmetic ---- *)
+Lemma testbit_small y k n : y < 2 ^ k -> k <= n -> N.testbit y n = false.
+Proof.
+  intros Hy Hn. destruct (N.eq_dec y 0) as [->|Hy0]; [apply N.bits_0|].
+  apply N.bits_above_log2. apply N.log2_lt_pow2; [lia|].
+  eapply N.lt_le_trans; [exact Hy|]. apply N.pow_le_mono_r; lia.
+Qed.
+
+Lemma land_shift_small x y k : y < 2 ^ k -> N.land (x * 2 ^ k) y = 0.
+Proof.
+  intros Hy. apply N.bits_inj; intros n; rewrite N.land_spec, N.bits_0.
+  destruct (N.lt_ge_cases n k) as [Hn|Hn].
+  - rewrite N.mul_pow2_bits_low by exact Hn; reflexivity.
+  - rewrite (testbit_small y k n Hy Hn). apply andb_false_r.
+Qed.
+
+Lemma lor_shiftl_add x y k : y < 2 ^ k -> N.lor (N.shiftl x k) y = x * 2 ^ k + y.
+Proof.
+  intros Hy. rewrite N.shiftl_mul_pow2.
+  rewrite <- N.lxor_lor by (apply land_shift_small; exact Hy).
+  symmetry. apply N.add_nocarry_lxor. apply land_shift_small; exact Hy.
+Qed.
+
+Lemma lor6 x y : y < 64 -> N.lor (N.shiftl x 6) y = x * 64 + y.
+Proof. intros H. rewrite (lor_shiftl_add x y 6) by exact H. reflexivity. Qed.
+
+Lemma lor6_12 x y z : y < 64 -> z < 64 ->
+  N.lor (N.lor (N.shiftl x 12) (N.shiftl y 6)) z = (x * 64 + y) * 64 + z.
+Proof.
+  intros Hy Hz.
+  replace (N.shiftl x 12) with (N.shiftl (N.shiftl x 6) 6) by (rewrite N.shiftl_shiftl; reflexivity).
+  rewrite <- N.shiftl_lor, (lor6 x y Hy). apply lor6, Hz.
+Qed.
+
+Lemma lor6_12_18 x y z w : y < 64 -> z < 64 -> w < 64 ->
+  N.lor (N.lor (N.lor (N.shiftl x 18) (N.shiftl y 12)) (N.shiftl z 6)) w = ((x * 64 + y) * 64 + z) * 64 + w.
+Proof.
+  intros Hy Hz Hw.
+  replace (N.shiftl x 18) with (N.shiftl (N.shiftl x 12) 6) by (rewrite N.shiftl_shiftl; reflexivity).
+  replace (N.shiftl y 12) with (N.shiftl (N.shiftl y 6) 6) by (rewrite N.shiftl_shiftl; reflexivity).
+  rewrite <- !N.shiftl_lor, (lor6_12 x y z Hy Hz). apply lor6, Hw.
+Qed.
+
+Lemma from_u32_ok {E} cp : is_scalar cp = true -> @from_u32_unwrap E cp = Ok cp.
+Proof. intros H. unfold from_u32_unwrap. rewrite H. reflexivity. Qed.
+
+Lemma is_scalar_iff cp : is_scalar cp = true <-> (cp < 0xD800 \/ 0xDFFF < cp <= 0x10FFFF).
+Proof. unfold is_scalar. rewrite orb_true_iff, andb_true_iff, !N.ltb_lt, N.leb_le. tauto. Qed.
+
+(* ---- the intermediate arithmetic decoder ---- *)
+Fixpoint match_trail (trail : list (N * N)) (acc : N) (rest : list N) : nat * option N :=
+  match trail with
+  | [] => (0%nat, Some acc)
+  | (lo, hi) :: tr =>
+      match rest with
+      | [] => (0%nat, None)
+      | b :: r =>
+          if in_range lo hi b then
+            let '(k, oc) := match_trail tr (acc * 64 + (b - 0x80)) r in (S k, oc)
+          else (0%nat, None)
+      end
+  end.
+
+Definition decode_arith (b0 : N) (rest : list N) : nat * option N :=
+  match row_of b0 with
+  | None => (0%nat, None)
+  | Some (base, trail) => match_trail trail (b0 - base) rest
+  end.
+
+Lemma match_trail_le trail : forall acc rest, (fst (match_trail trail acc rest) <= length rest)%nat.
+Proof.
+  induction trail as [|[lo hi] tr IH]; intros acc rest; cbn [match_trail fst]; [lia|].
+  destruct rest as [|b r]; cbn [fst length]; [lia|].
+  destruct (in_range lo hi b); cbn [fst]; [|lia].
+  specialize (IH (acc * 64 + (b - 0x80)) r).
+  destruct (match_trail tr (acc * 64 + (b - 128)) r) as [k oc]. cbn [fst] in *. lia.
+Qed.
+
+Lemma decode_arith_le b0 rest : (fst (decode_arith b0 rest) <= length rest)%nat.
+Proof.
+  unfold decode_arith. destruct (row_of b0) as [[base tr]|]; [apply match_trail_le|cbn; lia].
+Qed.
+
+(* ---- the code's bit-level decoder is the arithmetic decoder ---- *)
+Lemma decode_eq {E} b0 rest : b0 < 256 -> bytes_ok rest ->
+  @decode_cont_char E b0 rest = Ok (decode_arith b0 rest).
+Proof.
+  intros H0 Hr. unfold decode_cont_char, decode_arith, row_of.
+  destruct (b0 <=? 0x7F) eqn:HA.
+  { cbn [match_trail]. rewrite N.sub_0_r. reflexivity. }
+  destruct (in_range lead2_lo lead2_hi b0) eqn:H2.
+  { assert (R0 : in_range 0xC0 0xDF b0 = true).
+    { apply in_range_iff in H2. apply in_range_iff. unfold lead2_lo, lead2_hi in H2. lia. }
+    destruct rest as [|b1 r1]; [reflexivity|].
+    inversion Hr as [|? ? H1 Hr1]; subst.
+    cbn [safe_get nth match_trail]. unfold cont_range. rewrite (is_cont_range b1 H1).
+    destruct (in_range 0x80 0xBF b1) eqn:R1; cbn [negb]; [|reflexivity].
+    rewrite (land31 b0 H0 R0), (land63 b1 H1 R1).
+    apply in_range_iff in R0, R1.
+    rewrite lor6 by lia. rewrite from_u32_ok by (apply is_scalar_iff; lia). reflexivity. }
+  destruct (in_range 0xE0 0xEF b0) eqn:H3.
+  { destruct rest as [|b1 r1].
+    { cbn [safe_get nth match_trail]. rewrite (second3_range b0 0 H0 ltac:(lia) H3).
+      replace (in_range (lo3 b0) (hi3 b0) 0) with false; [reflexivity|].
+      symmetry. apply in_range_false_iff. unfold lo3. destruct (b0 =? 224); lia. }
+    inversion Hr as [|? ? H1 Hr1]; subst.
+    cbn [safe_get nth match_trail]. rewrite (second3_range b0 b1 H0 H1 H3).
+    destruct (in_range (lo3 b0) (hi3 b0) b1) eqn:R1; cbn [negb]; [|reflexivity].
+    assert (R1' : in_range 0x80 0xBF b1 = true).
+    { apply in_range_iff in R1. apply in_range_iff. unfold lo3, hi3 in R1.
+      destruct (b0 =? 224); destruct (b0 =? 237); lia. }
+    destruct r1 as [|b2 r2]; [reflexivity|].
+    inversion Hr1 as [|? ? H2' Hr2]; subst.
+    cbn [nth]. unfold cont_range. rewrite (is_cont_range b2 H2').
+    destruct (in_range 0x80 0xBF b2) eqn:R2; cbn [negb]; [|reflexivity].
+    rewrite (land15 b0 H0 H3), (land63 b1 H1 R1'), (land63 b2 H2' R2).
+    cbn [match_trail].
+    pose proof R1 as R1k. apply in_range_iff in H3, R1', R2, R1k.
+    rewrite lor6_12 by lia.
+    rewrite from_u32_ok; [reflexivity|].
+    apply is_scalar_iff. unfold lo3, hi3 in R1k.
+    destruct (N.eqb_spec b0 224) as [E1|E1]; destruct (N.eqb_spec b0 237) as [E2|E2]; lia. }
+  destruct (in_range 0xF0 0xF7 b0) eqn:H4; [|reflexivity].
+  destruct rest as [|b1 r1].
+  { cbn [safe_get nth]. rewrite (second4_range b0 0 H0 ltac:(lia) H4).
+    destruct (in_range 0xF0 0xF4 b0); [|reflexivity].
+    replace (in_range (lo4 b0) (hi4 b0) 0) with false; [reflexivity|].
+    symmetry. apply in_range_false_iff. unfold lo4. destruct (b0 =? 240); lia. }
+  inversion Hr as [|? ? H1 Hr1]; subst.
+  cbn [safe_get nth]. rewrite (second4_range b0 b1 H0 H1 H4).
+  destruct (in_range 0xF0 0xF4 b0) eqn:H4'; cbn [andb negb]; [|reflexivity].
+  cbn [match_trail].
+  destruct (in_range (lo4 b0) (hi4 b0) b1) eqn:R1; cbn [negb]; [|reflexivity].
+  assert (R1' : in_range 0x80 0xBF b1 = true).
+  { apply in_range_iff in R1. apply in_range_iff. unfold lo4, hi4 in R1.
+    destruct (b0 =? 240); destruct (b0 =? 244); lia. }
+  destruct r1 as [|b2 r2]; [reflexivity|].
+  inversion Hr1 as [|? ? H2' Hr2]; subst.
+  cbn [nth]. unfold cont_range. rewrite (is_cont_range b2 H2').
+  destruct (in_range 0x80 0xBF b2) eqn:R2; cbn [negb]; [|reflexivity].
+  destruct r2 as [|b3 r3]; [reflexivity|].
+  inversion Hr2 as [|? ? H3' Hr3]; subst.
+  cbn [nth]. rewrite (is_cont_range b3 H3').
+  destruct (in_range 0x80 0xBF b3) eqn:R3; cbn [negb]; [|reflexivity].
+  rewrite (land7 b0 H0 H4), (land63 b1 H1 R1'), (land63 b2 H2' R2), (land63 b3 H3' R3).
+  pose proof R1 as R1k. apply in_range_iff in H4', R1', R2, R3, R1k.
+  rewrite lor6_12_18 by lia.
+  rewrite from_u32_ok; [reflexivity|].
+  apply is_scalar_iff. unfold lo4, hi4 in R1k.
+  destruct (N.eqb_spec b0 240) as [E1|E1]; destruct (N.eqb_spec b0 244) as [E2|E2]; lia.
+Qed.
+
+(* ---- the Table 3-7 automaton is the arithmetic decoder ---- *)
+Definition or_repl (oc : option N) : N := match oc with Some c => c | None => replacement end.
+
+Lemma lossy_idle_step b r :
+  lossy_from LIdle (b :: r) = let '(out, st') := lossy_idle b in out ++ lossy_from st' r.
+Proof. reflexivity. Qed.
+
+Lemma lossy_seq trail : forall acc rest, trail <> [] ->
+  lossy_from (LSeq trail acc) rest =
+  let '(k, oc) := match_trail trail acc rest in or_repl oc :: lossy_from LIdle (skipn k rest).
+Proof.
+  induction trail as [|[lo hi] tr IH]; intros acc rest Hne; [congruence|].
+  destruct rest as [|b r]; [reflexivity|].
+  cbn [lossy_from lossy_step match_trail].
+  destruct (in_range lo hi b) eqn:R.
+  - destruct tr as [|p tr'].
+    + reflexivity.
+    + cbn [app]. rewrite IH by congruence.
+      destruct (match_trail (p :: tr') (acc * 64 + (b - 128)) r) as [k oc]. reflexivity.
+  - cbn [skipn or_repl]. rewrite lossy_idle_step.
+    destruct (lossy_idle b) as [out st']. reflexivity.
+Qed.
+
+Lemma lossy_lead b0 rest : b0 < 256 ->
+  lossy_from LIdle (b0 :: rest) =
+  let '(k, oc) := decode_arith b0 rest in or_repl oc :: lossy_from LIdle (skipn k rest).
+Proof.
+  intros H0. rewrite lossy_idle_step. unfold lossy_idle, decode_arith.
+  pose proof (find_row_of b0 H0) as HR. unfold row_eqb in HR.
+  destruct (find_row b0) as [r|]; destruct (row_of b0) as [[base tr]|] eqn:Hrow; try discriminate.
+  2:{ reflexivity. }
+  apply andb_true_iff in HR as [Hb Ht]. apply N.eqb_eq in Hb. apply trail_eqb_eq in Ht. subst base tr.
+  destruct (r_trail r) as [|p tr] eqn:Htr.
+  - cbn [match_trail app skipn or_repl].
+    replace (b0 - r_base r) with b0; [reflexivity|].
+    unfold row_of in Hrow.
+    repeat match type of Hrow with (if ?c then _ else _) = _ => destruct c end; try discriminate.
+    injection Hrow as <-. lia.
+  - cbn [app]. apply lossy_seq. congruence.
+Qed.
+
+Theorem decode_all_fuel_lossy {E} : forall fuel bs, (length bs < fuel)%nat -> bytes_ok bs ->
+  @decode_all_fuel E fuel bs = Ok (lossy bs).
+Proof.
+  induction fuel as [|f IH]; intros bs Hl Hb; [lia|].
+  destruct bs as [|b0 rest]; [reflexivity|].
+  inversion Hb as [|? ? H0 Hr]; subst.
+  cbn [decode_all_fuel]. rewrite (decode_eq b0 rest H0 Hr). cbn [obind].
+  unfold lossy. rewrite (lossy_lead b0 rest H0).
+  pose proof (decode_arith_le b0 rest) as Hk.
+  destruct (decode_arith b0 rest) as [k oc]. cbn [fst] in Hk.
+  rewrite IH.
+  - reflexivity.
+  - rewrite skipn_length. cbn [length] in Hl. lia.
+  - apply bytes_ok_skipn, Hr.
+Qed.
+
+Theorem decode_is_lossy {E} bs : bytes_ok bs -> @decode_all E bs = Ok (lossy bs).
+Proof. intros H. apply decode_all_fuel_lossy; [lia|exact H]. Qed.
+
+Lemma from_u32_inv {E} cp c : @from_u32_unwrap E cp = Ok c -> c = cp /\ is_scalar cp = true.
+Proof. unfold from_u32_unwrap. destruct (is_scalar cp); intros H; inversion H; auto. Qed.
+
+(* whatever the decoder returns as a character is a Unicode scalar value *)
+Lemma decode_scalar {E} b0 rest k c : @decode_cont_char E b0 rest = Ok (k, Some c) -> is_scalar c = true.
+Proof.
+  unfold decode_cont_char.
+  repeat match goal with
+  | |- (if ?c then _ else _) = _ -> _ => destruct c eqn:?
+  | |- obind ?x _ = _ -> _ => let Hx := fresh "Hx" in destruct x eqn:Hx; cbn [obind]
+  end; intros H; inversion H; subst;
+  try (match goal with Hx : from_u32_unwrap _ = Ok _ |- _ => apply from_u32_inv in Hx as [-> Hs]; exact Hs end).
+  apply is_scalar_iff. apply N.leb_le in Heqb. lia.
+Qed.
+
+Theorem decode_no_panic {E} b0 rest : b0 < 256 -> bytes_ok rest ->
+  exists k oc, @decode_cont_char E b0 rest = Ok (k, oc) /\ (k <= length rest)%nat.
+Proof.
+  intros H0 Hr. rewrite (decode_eq b0 rest H0 Hr).
+  pose proof (decode_arith_le b0 rest) as Hk. destruct (decode_arith b0 rest) as [k oc].
+  exists k, oc. split; [reflexivity|exact Hk].
+Qed.
+
+(* ---- the specification inverts the textbook encoder ---- *)
+Lemma in_range_true lo hi b : lo <= b <= hi -> in_range lo hi b = true.
+Proof. apply in_range_iff. Qed.
+Lemma in_range_false lo hi b : b < lo \/ hi < b -> in_range lo hi b = false.
+Proof. apply in_range_false_iff. Qed.
+
+Lemma lossy_encode cp bs : is_scalar cp = true ->
+  lossy (utf8_encode cp ++ bs) = cp :: lossy bs.
+Proof.
+  intros Hs. apply is_scalar_iff in Hs. unfold lossy, utf8_encode.
+  pose proof (N.div_mod cp 64 ltac:(lia)) as E1. pose proof (N.mod_lt cp 64 ltac:(lia)) as L1.
+  pose proof (N.div_mod (cp / 64) 64 ltac:(lia)) as E2. pose proof (N.mod_lt (cp / 64) 64 ltac:(lia)) as L2.
+  pose proof (N.div_mod (cp / 64 / 64) 64 ltac:(lia)) as E3. pose proof (N.mod_lt (cp / 64 / 64) 64 ltac:(lia)) as L3.
+  replace (cp / 4096) with (cp / 64 / 64) by (rewrite N.div_div by lia; reflexivity).
+  replace (cp / 262144) with (cp / 64 / 64 / 64) by (rewrite !N.div_div by lia; reflexivity).
+  set (a1 := cp / 64) in *. set (r0 := cp mod 64) in *.
+  set (a2 := a1 / 64) in *. set (r1 := a1 mod 64) in *.
+  set (a3 := a2 / 64) in *. set (r2 := a2 mod 64) in *.
+  destruct (cp <? 0x80) eqn:C1.
+  { apply N.ltb_lt in C1. cbn [app]. rewrite lossy_lead by lia.
+    unfold decode_arith, row_of. replace (cp <=? 127) with true by (symmetry; apply N.leb_le; lia).
+    cbn [match_trail skipn or_repl]. f_equal. lia. }
+  apply N.ltb_ge in C1.
+  destruct (cp <? 0x800) eqn:C2.
+  { apply N.ltb_lt in C2. cbn [app]. rewrite lossy_lead by lia.
+    unfold decode_arith, row_of, lead2_lo, lead2_hi.
+    replace (192 + a1 <=? 127) with false by (symmetry; apply N.leb_gt; lia).
+    rewrite (in_range_true 0xC2 0xDF) by lia.
+    cbn [match_trail]. unfold cont_range. rewrite (in_range_true 0x80 0xBF) by lia.
+    cbn [skipn or_repl]. f_equal. lia. }
+  apply N.ltb_ge in C2.
+  destruct (cp <? 0x10000) eqn:C3.
+  { apply N.ltb_lt in C3. cbn [app]. rewrite lossy_lead by lia.
+    unfold decode_arith, row_of, lead2_lo, lead2_hi.
+    replace (224 + a2 <=? 127) with false by (symmetry; apply N.leb_gt; lia).
+    rewrite (in_range_false 0xC2 0xDF) by lia.
+    rewrite (in_range_true 0xE0 0xEF) by lia.
+    cbn [match_trail]. unfold cont_range, lo3, hi3.
+    destruct (N.eqb_spec (224 + a2) 224) as [Q1|Q1]; destruct (N.eqb_spec (224 + a2) 237) as [Q2|Q2];
+      try (exfalso; lia).
+    all: rewrite (in_range_true _ _ (128 + r1)) by lia.
+    all: rewrite (in_range_true 0x80 0xBF) by lia.
+    all: cbn [skipn or_repl]; f_equal; lia. }
+  apply N.ltb_ge in C3.
+  cbn [app]. rewrite lossy_lead by lia.
+  unfold decode_arith, row_of, lead2_lo, lead2_hi.
+  replace (240 + a3 <=? 127) with false by (symmetry; apply N.leb_gt; lia).
+  rewrite (in_range_false 0xC2 0xDF) by lia.
+  rewrite (in_range_false 0xE0 0xEF) by lia.
+  rewrite (in_range_true 0xF0 0xF7) by lia.
+  rewrite (in_range_true 0xF0 0xF4) by lia.
+  cbn [match_trail]. unfold cont_range, lo4, hi4.
+  destruct (N.eqb_spec (240 + a3) 240) as [Q1|Q1]; destruct (N.eqb_spec (240 + a3) 244) as [Q2|Q2];
+    try (exfalso; lia).
+  all: rewrite (in_range_true _ _ (128 + r2)) by lia.
+  all: rewrite (in_range_true 0x80 0xBF (128 + r1)) by lia.
+  all: rewrite (in_range_true 0x80 0xBF (128 + r0)) by lia.
+  all: cbn [skipn or_repl]; f_equal; lia.
+Qed.
+
+Theorem lossy_encode_all s : Forall (fun c => is_scalar c = true) s ->
+  lossy (utf8_encode_all s) = s.
+Proof.
+  induction 1 as [|c s Hc Hs IH]; [reflexivity|].
+  unfold utf8_encode_all in *. cbn [flat_map]. rewrite lossy_encode by exact Hc. rewrite IH. reflexivity.
+Qed.
+
+(* encoded scalars are bytes *)
+Lemma utf8_encode_bytes cp : is_scalar cp = true -> bytes_ok (utf8_encode cp).
+Proof.
+  intros Hs. apply is_scalar_iff in Hs. unfold utf8_encode, bytes_ok.
+  pose proof (N.mod_lt cp 64 ltac:(lia)). pose proof (N.mod_lt (cp / 64) 64 ltac:(lia)).
+  pose proof (N.mod_lt (cp / 4096) 64 ltac:(lia)).
+  assert (cp / 64 <= cp) by (apply N.div_le_upper_bound; lia).
+  repeat match goal with |- context[if ?c then _ else _] => destruct c eqn:? end;
+  repeat match goal with H : (_ <? _) = true |- _ => apply N.ltb_lt in H | H : (_ <? _) = false |- _ => apply N.ltb_ge in H end;
+  repeat constructor; try lia.
+  all: try (assert (cp / 64 < 32) by (apply N.div_lt_upper_bound; lia); lia).
+  all: try (assert (cp / 4096 < 16) by (apply N.div_lt_upper_bound; lia); lia).
+  all: try (assert (cp / 262144 < 5) by (apply N.div_lt_upper_bound; lia); lia).
+Qed.
